@@ -1,7 +1,7 @@
 import Dm.Model.ErrorSrc
 
 /-
-`es <named 0|1> <defaultEnabled 0|1> <field>;<field>;...`  (no fields: `-`)
+`es <named 0|1> <defaultEnabled 0|1> <field>;<field>;... [vi]`  (no fields: `-`; `vi`: an enum variant carrying `#[error(ignore)]`)
 field := <s|b|o>,<0|1>,<attr>   attr := `-` (none) | `e` (empty) | params joined by `+` from i,s,ns,b,nb
 Answer: `ok src=<all index|-> bt=<all index|->` | `err`
 -/
@@ -39,6 +39,15 @@ def cmdEs (args : List String) : String :=
         let sa := s.bind (allIdx sh)
         let ba := b.bind (allIdx sh)
         s!"ok src={showIdx sa} bt={showIdx ba}"
+  | [named, de, fs, "vi"] =>
+    let fields := if fs == "-" then some [] else (fs.splitOn ";").mapM dField
+    match fields with
+    | none => "bad-op"
+    | some fields =>
+      let sh : Shape := { named := named == "1", fields := fields, defaultEnabled := de == "1" }
+      match variantSource true sh with
+      | .error _ => "err"
+      | .ok s => s!"ok src={showIdx s} bt=-"
   | _ => "bad-op"
 
 end Dm.ErrCmd
